@@ -1,6 +1,8 @@
 (* C17 -- Local-allele fields are a faithful projection and change nothing else. *)
 From Coq Require Import ZArith Arith List Bool Sorting.Sorted.
 From B2Z Require Import Base.Prims Model.LocalAlleles Proofs.LocalAllelesProofs.
+From B2Z Require Import Gen.GenLpl.
+From Coq Require Import Lia.
 Import ListNotations.
 Open Scope Z_scope.
 
@@ -67,6 +69,39 @@ Print Assumptions lpl_haploid_fill_refuted.
 Theorem ploidy_rejected : forall ploidy la, ploidy <> 1 -> ploidy <> 2 -> ab_pairs ploidy la = Err E_ValueError.
 Proof. exact ab_pairs_rejects. Qed.
 Print Assumptions ploidy_rejected.
+
+(* ---- TRANSLATOR TIE (the scalar skeleton of compute_lpl_field as read off the source on this run, translator/lpl2coq.py;
+   the vectorised index arithmetic itself is the hand-written model): both dispatches on the record's ploidy -- the one that
+   sizes the all-missing result of a record without PL and the one in front of the a / b index construction -- accept exactly
+   the ploidies the model localises and reject every other with ValueError ... *)
+Theorem translated_ploidy_dispatch : forall ploidy la n,
+  (gen_index_ploidy_ok ploidy = Ok tt <-> exists x, ab_pairs ploidy la = Ok x) /\
+  (ploidy <> 1 -> ploidy <> 2 -> gen_index_ploidy_ok ploidy = Err E_ValueError /\ gen_local_genotype_count ploidy n = Err E_ValueError).
+Proof.
+  intros ploidy la n. unfold gen_index_ploidy_ok, gen_local_genotype_count, ab_pairs.
+  destruct (ploidy =? 1) eqn:E1; [split; [split; [eexists; reflexivity|reflexivity]|lia]|].
+  destruct (ploidy =? 2) eqn:E2; [split; [split; [eexists; reflexivity|reflexivity]|lia]|].
+  split; [split; [discriminate|intros [x Hx]; discriminate]|]. intros _ _. split; reflexivity.
+Qed.
+Print Assumptions translated_ploidy_dispatch.
+
+(* ... the number of local genotypes of a record without PL is the number of (a, b) pairs the model builds for the same
+   number of local alleles ... *)
+Theorem translated_local_genotype_count : forall ploidy la l, ab_pairs ploidy la = Ok l ->
+  gen_local_genotype_count ploidy (Z.of_nat (length la)) = Ok (Z.of_nat (length l)).
+Proof.
+  intros ploidy la l H. unfold gen_local_genotype_count, ab_pairs in *.
+  destruct (ploidy =? 1); [inversion H; subst; rewrite map_length; reflexivity|].
+  destruct (ploidy =? 2); [|discriminate]. inversion H; subst. rewrite map_length, pairs_length. f_equal.
+  unfold tri. rewrite Nat2Z.inj_div. f_equal. lia.
+Qed.
+Print Assumptions translated_local_genotype_count.
+
+(* ... and the local-allele row starts with the reference allele, negative entries (htslib's missing / end-of-vector
+   sentinels in a carried LAA; the repair of F12) being fill *)
+Theorem translated_la_row : forall laa, gen_la_row laa = la_of (map (fun x => if x <? 0 then INT_FILL else x) laa).
+Proof. intros laa. reflexivity. Qed.
+Print Assumptions translated_la_row.
 
 (* regression witness for F4 (all-missing PL with a call on high allele numbers): post-fix the
    broadcast covers every index *)
